@@ -83,6 +83,16 @@ func (P *Program) calleesOf(c ssa.CallInstruction) []*ssa.Function {
 
 // reachableOwn: own functions with bodies reachable from the roots (closures included).
 func (P *Program) reachableOwn(roots ...*ssa.Function) []*ssa.Function {
+	return P.reachableOwnOpt(false, roots...)
+}
+
+// reachableOwnThread: like reachableOwn but within one thread of control: the bodies of goroutines
+// started on the way (go f(), go func(){…}()) are not entered — they are concurrency roots of their own.
+func (P *Program) reachableOwnThread(roots ...*ssa.Function) []*ssa.Function {
+	return P.reachableOwnOpt(true, roots...)
+}
+
+func (P *Program) reachableOwnOpt(sameThread bool, roots ...*ssa.Function) []*ssa.Function {
 	seen := map[*ssa.Function]bool{}
 	var out []*ssa.Function
 	var walk func(fn *ssa.Function)
@@ -99,6 +109,9 @@ func (P *Program) reachableOwn(roots ...*ssa.Function) []*ssa.Function {
 			for _, ins := range b.Instrs {
 				switch x := ins.(type) {
 				case ssa.CallInstruction:
+					if _, isGo := x.(*ssa.Go); isGo && sameThread {
+						continue
+					}
 					for _, callee := range P.calleesOf(x) {
 						walk(callee)
 					}
@@ -112,6 +125,9 @@ func (P *Program) reachableOwn(roots ...*ssa.Function) []*ssa.Function {
 						}
 					}
 				case *ssa.MakeClosure:
+					if sameThread && onlyStartedAsGoroutine(x) {
+						continue
+					}
 					walk(x.Fn.(*ssa.Function))
 				}
 			}
@@ -127,4 +143,19 @@ func (P *Program) reachableOwn(roots ...*ssa.Function) []*ssa.Function {
 		return out[i].String() < out[j].String()
 	})
 	return out
+}
+
+// onlyStartedAsGoroutine: every use of the closure value is as the callee of a go statement.
+func onlyStartedAsGoroutine(mc *ssa.MakeClosure) bool {
+	refs := mc.Referrers()
+	if refs == nil || len(*refs) == 0 {
+		return false
+	}
+	for _, r := range *refs {
+		g, ok := r.(*ssa.Go)
+		if !ok || g.Common().Value != ssa.Value(mc) {
+			return false
+		}
+	}
+	return true
 }
